@@ -25,7 +25,6 @@ import datetime
 import html
 import io
 import logging
-import math
 import struct
 from typing import cast, NamedTuple
 
@@ -570,16 +569,8 @@ class ServeMpsMedia(MediaRequestBase):
                                       ) -> SegmentPosition:
         origin_time: int
         period: models.Period = cast(models.Period, flask.g.period)
-        timing_ref = period.stream.timing_reference
-        assert timing_ref is not None
-        start_time: int = int(math.floor(
-            period.start.total_seconds() * timing_ref.timescale))
-        if representation.timescale != timing_ref.timescale:
-            start_time = int(math.floor(
-                start_time * representation.timescale / timing_ref.timescale))
-        if seg_time is not None:
-            start_time += seg_time
-        mod_seg, seg_start_tc, origin_time = representation.get_segment_index(
+        start_time: int = period.start_timecode(representation.timescale)
+        first_seg, first_start_tc, origin_time = representation.get_segment_index(
             start_time)
         if origin_time > 0:
             # start_time is later than the middle of the last segment (or
@@ -587,20 +578,19 @@ class ServeMpsMedia(MediaRequestBase):
             # the next loop of the media. There is no source segment to play.
             raise ValueError('Period start is beyond end of media')
 
-        origin_time = -seg_start_tc
+        # decode times count from the start of the first segment of the Period
+        origin_time = -first_start_tc
+        mod_seg: int = first_seg
         if seg_time is not None:
-            origin_time += seg_time
-            # a $Time$ request has no segment number: count the segments
-            # from the one that the Period starts with
-            first_seg, _, _ = representation.get_segment_index(
-                start_time - seg_time)
-            if mod_seg < first_seg:
-                raise ValueError('Segment before start of Period')
-            return SegmentPosition(
-                mod_seg, origin_time,
-                representation.start_number + mod_seg - first_seg)
-
-        if seg_num is not None:
+            # $Time$ counts from the start of the first segment of the
+            # Period, as in the SegmentTimeline of the Period
+            mod_seg, _, loop_origin = representation.get_segment_index(
+                first_start_tc + seg_time)
+            if loop_origin > 0:
+                raise ValueError('Segment beyond end of media')
+            seg_num = representation.start_number + mod_seg - first_seg
+        else:
+            assert seg_num is not None
             if seg_num < representation.start_number:
                 raise ValueError('Segment before start of Period')
             mod_seg += seg_num - representation.start_number
